@@ -1137,3 +1137,57 @@ func c20EstFamily(run *c20Run, batch int) {
 	f := c20FileName("est", batch)
 	run.sizes[f] = c20WriteCases(run.t, f, "Estimations", "echeck_case", p, cases)
 }
+
+
+// ===========================================================================
+// Capacity of a node's epoch list ("est"++cid++hash): the same node reports
+// for the same (epoch, cid) again and again, so that updateEstimations keeps
+// every old entry; the real contract faults when the old and the new list no
+// longer fit the VM's live-item limit ("stack is too big").  The measured
+// number of accepted estimations is tied to the model's constant cap_limit by
+// cases_C20_cap.v (M = [] iff they agree).
+func c20CapacityProbe(run *c20Run) {
+	t := run.t
+	t0 := time.Now()
+	x := c20NewEstEnv(run, 1)
+	v := x.Env
+	r := v.Invoke([]neotest.Signer{v.E.Committee, x.nodes[0]}, x.netmap, "addPeer", x.infos[0])
+	require.True(t, r.Halt, r.Fault)
+	for n := int64(1); n <= 2; n++ {
+		r = v.Invoke([]neotest.Signer{v.E.Committee}, x.netmap, "newEpoch", n)
+		require.True(t, r.Halt, r.Fault)
+	}
+	accepted, fault := 0, ""
+	for i := 1; i <= 2100; i++ {
+		r = v.Invoke([]neotest.Signer{v.E.Validator, x.nodes[0]}, x.container, "putContainerSize", int64(2), x.cids[0], int64(i), x.pubs[0])
+		if !r.Halt {
+			fault = r.Fault
+			break
+		}
+		accepted++
+	}
+	run.st.Evaluations += accepted + 1
+	run.st.Histories++
+	run.st.OpHistogram["est.put(capacity probe)"] += accepted + 1
+	run.st.OutcomeHistogram["est.put(capacity probe)/halt"] += accepted
+	if fault != "" {
+		run.st.OutcomeHistogram["est.put(capacity probe)/fault"]++
+	}
+	run.st.Extra["epoch_list_capacity"] = map[string]any{"accepted_estimations_of_one_node_for_one_epoch_and_container": accepted, "then_fault": fault}
+	// exactly one entry under the key, whatever the number of reports
+	it, err := x.Read(x.container, "iterateContainerSizes", int64(2), x.cids[0])
+	require.NoError(t, err)
+	arr, _ := it.Value().([]stackitem.Item)
+	if len(arr) != 1 {
+		run.st.AddViolation(fmt.Sprintf("capacity probe: %d entries under one (epoch, cid, node) after %d reports", len(arr), accepted), []string{"putContainerSize(2, cid0, i, node0) repeated"})
+		run.nviol++
+	}
+	src := "From Verif Require Import Base.Prelude Model.Estimations.\nLocal Open Scope Z_scope.\n" +
+		"(* measured on the compiled contract: number of estimations of one node for one (epoch, container) accepted before the call faults *)\n" +
+		fmt.Sprintf("Definition measured : Z := %d.\n", accepted) +
+		"Definition M := Eval vm_compute in (if measured =? cap_limit then [] else [(0%nat, (0%nat, VInt measured))]).\nPrint M.\n"
+	name := "cases_C20_cap.v"
+	require.NoError(t, os.WriteFile(filepath.Join(OutDir(), name), []byte(src), 0o644))
+	run.sizes[name] = len(src)
+	run.times["cap"] = time.Since(t0).Seconds()
+}
